@@ -49,6 +49,30 @@ def frac_text(fr: Fraction) -> str:
     return "%s%d/%d" % ("-" if fr < 0 else "", abs(fr.numerator), fr.denominator)
 
 
+def real_text(fr: Fraction, exponent=False):
+    """The exact decimal expansion of a fraction whose denominator is 2**a * 5**b, as a real literal (None otherwise)."""
+    d, k = fr.denominator, 0
+    while d % 10 == 0:
+        d //= 10
+        k += 1
+    a = b = 0
+    while d % 2 == 0:
+        d //= 2
+        a += 1
+    while d % 5 == 0:
+        d //= 5
+        b += 1
+    if d != 1:
+        return None
+    k += max(a, b)
+    digits = str(abs(fr.numerator) * 10 ** k // fr.denominator)
+    sign = "-" if fr < 0 else ""
+    if exponent:
+        return "%s%se-%d" % (sign, digits, k) if k else "%s%se0" % (sign, digits)
+    digits = digits.rjust(k + 1, "0")
+    return sign + (digits[:-k] + "." + digits[-k:] if k else digits + ".0")
+
+
 def grid():
     """Yields (type text, canonical type str, initializer text, expected) with expected = ('ok', value) | ('reject',)."""
     specials = [("''", None), ("'a'", "a"), ("'ab'", None), ("'\\u00e9'", None), ("'é'", None), ("'\\u007f'", "\x7f"), ('"~"', "~"),
@@ -61,6 +85,12 @@ def grid():
         for fr in (Fraction(2 * hi + 1, 2), Fraction(1, 2), Fraction(2 * lo - 1, 2)):
             yield text, canon, "(%s)" % frac_text(fr) if fr >= 0 else "(0 - %s)" % frac_text(-fr), ("reject",)
         yield text, canon, "%d.0" % max(hi, 0), ("ok", Fraction(max(hi, 0)))  # a real literal with an integer value is an integer
+        # real literals with far more significant digits than any floating-point or fixed-precision decimal type carries
+        tiny = Fraction(1, 10 ** 35)
+        yield text, canon, real_text(Fraction(max(hi, 0)) + tiny), ("reject",)
+        yield text, canon, "%d.%s" % (max(hi, 0), "0" * 40), ("ok", Fraction(max(hi, 0)))
+        if hi >= 1:
+            yield text, canon, real_text(Fraction(hi) - tiny), ("reject",)
         for init, ch in specials:
             if ch == "bool" or ch is None:
                 yield text, canon, init, ("reject",)
@@ -82,6 +112,11 @@ def grid():
                     if fr < 0:
                         init = "-(%s)" % init
                     yield text, canon, init, (("ok", fr) if ok else ("reject",))
+            for sign in (1, -1):
+                for fr, ok in ((mx, True), (mx + eps, False), (mx - eps, True), (Fraction(1234567890123456789012345678901234567890, 10 ** 40), True),
+                               (Fraction(1, 10 ** 45) + Fraction(1, 10 ** 90), True)):
+                    for exponent in (False, True):
+                        yield text, canon, real_text(fr * sign, exponent), (("ok", fr * sign) if ok else ("reject",))
             for init in ("true", "'a'", "''", "{1.0}"):
                 yield text, canon, init, ("reject",)
     for init, exp in (("true", ("ok", True)), ("false", ("ok", False)), ("!true", ("ok", False)), ("0", ("reject",)), ("1", ("reject",)),
